@@ -29,6 +29,7 @@ ASSUMPTIONS = [
     "a bare top-level reference is not handed to PDFStreamParser except to exhibit known finding C01:streamparser-toplevel-ref",
 ]
 PROBES = [
+    "nesting deeper than 1000",
     "boundary inside string escape",
     "boundary inside name #xx",
     "str-continuation-crlf",
@@ -223,8 +224,78 @@ def judge(kind, model, result, quirks, sched_desc, spelling, devs, path_name):
     return canon(result[1])
 
 
+def deep_case(t, ctx):
+    """Containers nested hundreds to thousands of levels deep, followed by a keyword-like value in the same container.
+    Written and judged without recursion (the general model comparison is recursive)."""
+    depth = t.pick([300, 1200, 1500, 3000], "deep.D")
+    if depth > 1000:
+        ctx.probe("nesting deeper than 1000")
+    levels = [t.pick("ad", "deep.kind") if t.coin(20, 100, "deep.mix") else "a" for _ in range(depth)]
+    tail = t.pick([b"null", b"5 0 R", b"true", b"7", b"", b"/N"], "deep.tail")
+    body = b"".join(b"[" if k == "a" else b"<</K " for k in levels) + b"7" + b"".join(b"]" if k == "a" else b">>" for k in reversed(levels))
+    spelled = b"[" + body + b" " + tail + b"]"
+    devs = []
+
+    def judge_deep(res, path_name, desc):
+        if res[0] != "ok":
+            devs.append(Dev("C01:%s:raise:%s" % (path_name, res[1]), "%s; %d levels of nesting followed by %r; %s" % (res[2], depth, tail, desc)))
+            return
+        v = res[1]
+        want_len = 2 if tail else 1
+        if not isinstance(v, list) or len(v) != want_len:
+            devs.append(Dev("C01:%s:wrong-deep" % path_name, "outer array of %d expected, got %s; %d levels, tail %r; %s" % (want_len, type(v).__name__, depth, tail, desc)))
+            return
+        inner = v[0]
+        for lv, k in enumerate(levels):
+            if k == "a":
+                ok = isinstance(inner, list) and len(inner) == 1
+                nxt = inner[0] if ok else None
+            else:
+                ok = isinstance(inner, dict) and list(inner) == ["K"]
+                nxt = inner["K"] if ok else None
+            if not ok:
+                devs.append(Dev("C01:%s:wrong-deep" % path_name, "level %d of %d: expected a one-element %s, got %s; tail %r; %s" % (lv, depth, "array" if k == "a" else "dictionary", type(inner).__name__, tail, desc)))
+                return
+            inner = nxt
+        if inner != 7 or isinstance(inner, bool):
+            devs.append(Dev("C01:%s:wrong-deep" % path_name, "innermost value %r, expected 7; %d levels; %s" % (inner, depth, desc)))
+        if tail:
+            got = v[1]
+            good = {b"null": got is None, b"true": got is True, b"7": got == 7 and not isinstance(got, bool), b"5 0 R": isinstance(got, PDFObjRef) and got.objid == 5, b"/N": literal_name_of(got) == "N"}[tail]
+            if not good:
+                devs.append(Dev("C01:%s:wrong-deep" % path_name, "value after the deep container: %r, expected %r; %d levels; %s" % (got, tail, depth, desc)))
+
+    for k in range(2):
+        pol, desc = (None, "default") if k == 0 else seams.draw_chunk_policy(t, None, allow_default=False)
+        ctx.seam("chunk")
+        if tail != b"5 0 R":
+            # (a reference inside a stream-parser value needs a document; the document path covers it)
+            judge_deep(read_stream_path(spelled, pol), "streamparser", desc)
+        fw = FileWriter(tape=t, wild=False)
+        fw.add_object(1, {b"Type": Name(b"Catalog")}, wild=False)
+        off = fw.pos()
+        fw.buf += b"2 0 obj" + spelled + b"endobj\n"
+        fw.offsets[2] = (off, 0)
+        fw.xref_table({0: (None, 65535), 1: fw.offsets[1], 2: fw.offsets[2]}, {b"Size": 3, b"Root": Ref(1, 0)})
+        caching = not t.coin(30, 100, "caching")
+        judge_deep(read_doc_path(fw.getvalue(), [2], pol, caching)[2], "getobj", desc + ("/caching" if caching else "/nocache"))
+    seen = {}
+    for d in devs:
+        seen.setdefault(d.sig, d)
+    t.note((depth, tail))
+    return Outcome(list(seen.values()), scen=repr((depth, "".join(levels), tail)), nontrivial=True, sample={"value": "%d nested containers followed by %r" % (depth, tail), "spelling": repr(spelled[:40]), "object_offset": 0, "features": ["deep nesting"]})
+
+
+def literal_name_of(v):
+    from pdfminer.psparser import PSLiteral
+
+    return v.name if isinstance(v, PSLiteral) else None
+
+
 def run(tape, ctx, item=None):
     t = tape
+    if t.coin(1, 120, "deep"):
+        return deep_case(t, ctx)
     value = gen_value(t, t.pick([0, 1, 2, 3, 4, 6], "depth"), [t.pick([3, 10, 40, 120], "budget")])
     devs = []
     scen = []
